@@ -42,6 +42,15 @@ CLAIMED = {
  'C20': ('exploration', 'model-based runtime monitor (decoder model; std::vector shadow objects compared after every operation) + ASan/UBSan + guard pages',
          'Hex codec on exact guard-page buffers against a small model incl. every byte value at every position of short strings; NO_STL byte_array sequences shadowed by std::vector on 4 aliased objects, release and ASan builds.',
          'Operation sequences sampled; undefined vector operations not called.', '4 C20'),
+ 'C12': ('exploration', 'ASan + UBSan builds of the whole harness corpus on exactly-sized guard-page buffers (canaries, NULL for empty inputs), -O3 builds under guard pages for the assembly, CLI tools under ASan on hostile argument vectors',
+         'All ten harness programs re-run with every object between PROT_NONE pages under gcc ASan+UBSan for 5 backend/share builds (quick) or all 135 configurations (thorough); release builds repeat it so that assembly accesses are covered; asconcrypt/asconsum under ASan with file names, passwords, key files and check files around every buffer size.',
+         'Red-zone tools miss far/intra-object overflows and library stack locals; only documented argument domains.', '4 C12'),
+ 'C13': ('exploration', 'differential raw-byte snapshot monitor on released objects (two runs differing only in secrets), -O3 shipped code',
+         '42 object types through random histories; bytes of the storage after free/clear/destructor compared between two secret sets, with a liveness check that the bytes before release did differ.',
+         'Says nothing about dead stack frames/registers; gcc 12 only.', '4 C13'),
+ 'C19': ('fault_enumeration', 'process-level observer of the real tools + system-call fault injection with strace (every k-th read/write, open, getrandom; EINTR), tamper enumeration',
+         'Round trips over boundary sizes and option styles; a bit flip at every byte and every truncation length of encrypted files; failure of the k-th write/read for every k with confirmation that the fault fired; asconsum digests and check mode against the reference.',
+         'strace/ptrace injects the faults; tty password prompting not exercised.', '4 C19'),
  'C08': ('exploration', 'differential runtime monitor vs reference model + ASan/UBSan + guard pages',
          'Real library built for each of the 5 host backends (release and ASan+UBSan), every (offset,size) pair exhaustively, '
          'structured + random states for all 12 starting rounds, each output compared with an independent reference permutation.',
